@@ -266,14 +266,12 @@ func (w *response) Write(b []byte) (int, error) {
 	if isMulti {                                 // don't use buffered writer for muti-streamming writes it'll mix up streams
 		return msc.Write(b)
 	}
-	n, err := w.conn.buf.Writer.Write(b)
-	if err != nil {
-		return 0, err
-	}
-	if err = w.conn.buf.Writer.Flush(); err != nil {
-		return 0, err
-	}
-	return n, nil
+	// b is a complete message: hand it to the transport directly. Going
+	// through the bufio.Writer gained nothing (it was flushed at once) and
+	// lost the number of bytes the transport accepted, and a bufio.Writer
+	// keeps the first error forever, so a temporary error could neither be
+	// retried (WriteToWithRetry) nor survived by later writes.
+	return w.conn.rwc.Write(b)
 }
 
 // WriteStream of MultistreamWriter interface
